@@ -1,4 +1,4 @@
-//@unit U7 props=C03,C09,C11,C13,C14 SendChannelUnreliable (renet/src/channel/unreliable.rs)
+//@unit U7 props=C03,C09,C11,C13,C14,C16 SendChannelUnreliable (renet/src/channel/unreliable.rs)
 #![feature(allocator_api)]
 #![allow(unused_imports, dead_code, unused_variables, unused_mut)]
 use vstd::prelude::*;
